@@ -36,7 +36,7 @@ use crate::temporal::date::{is_valid_date, FeelDate};
 use crate::temporal::errors::*;
 use crate::temporal::ym_duration::FeelYearsAndMonthsDuration;
 use crate::temporal::zone::FeelZone;
-use chrono::{DateTime, FixedOffset, Local, LocalResult, NaiveDate, NaiveDateTime, NaiveTime, TimeZone, Utc};
+use chrono::{DateTime, FixedOffset, Local, LocalResult, NaiveDate, NaiveDateTime, NaiveTime, Offset, TimeZone};
 use dmntk_common::{DmntkError, Result};
 use regex::Regex;
 use std::cmp::Ordering;
@@ -582,16 +582,20 @@ fn get_local_offset(date: (i32, u32, u32), time: (u32, u32, u32, u32)) -> Option
 /// Returns time offset (in seconds) between named time zone
 /// and UTC time zone at specified date and time.
 fn get_zone_offset(zone_name: &str, date: (i32, u32, u32), time: (u32, u32, u32, u32)) -> Option<i32> {
-  // try to build UTC date and time from specified values
-  if let LocalResult::Single(utc) = Utc.ymd_opt(date.0, date.1, date.2).and_hms_nano_opt(time.0, time.1, time.2, time.3) {
-    // try parse the time zone specified as text
-    if let Ok(tz) = zone_name.parse::<chrono_tz::Tz>() {
-      // build date and time in parsed time zone
-      let zdt = tz.ymd(date.0, date.1, date.2).and_hms_nano(time.0, time.1, time.2, time.3);
-      // calculate the time offset, the result is a chrono::Duration
-      let offset: chrono::Duration = utc.with_timezone(&tz) - zdt;
-      // return seconds
-      return Some(offset.num_seconds() as i32);
+  // try to build the local date and time from specified values
+  if let Some(naive_date) = NaiveDate::from_ymd_opt(date.0, date.1, date.2) {
+    if let Some(naive_time) = NaiveTime::from_hms_nano_opt(time.0, time.1, time.2, time.3) {
+      // try parse the time zone specified as text
+      if let Ok(tz) = zone_name.parse::<chrono_tz::Tz>() {
+        // find the date and time in parsed time zone and return its offset in seconds
+        return match tz.from_local_datetime(&NaiveDateTime::new(naive_date, naive_time)) {
+          LocalResult::Single(zdt) => Some(zdt.offset().fix().local_minus_utc()),
+          // the clock was turned backward and shows this time twice, take the earlier one
+          LocalResult::Ambiguous(zdt, _) => Some(zdt.offset().fix().local_minus_utc()),
+          // the clock was turned forward and never shows this time
+          LocalResult::None => None,
+        };
+      }
     }
   }
   None
